@@ -96,6 +96,137 @@ def _quals(r):
     return out
 
 
+class CdsGuidContent(Case):
+    """The CDS identifier is a function of CONTENT: a CDS described by GFF3 phases has the same identifier as the
+    same CDS described by the corresponding frames (same to_dict()), and survives the dict round trip."""
+    props = ("C08",)
+    name = "CDSInterval.guid[phases vs frames, 2 blocks]: equal content => equal identifier; round trip"
+    func = CDS + ".__init__"
+    module = "gene.cds"
+    call = ("(lambda a, b: (a.guid, b.guid, CDSInterval.from_dict(a.to_dict()).guid, "
+            "[x.name for x in a.frames], [x.name for x in b.frames]))"
+            "(CDSInterval(starts, ends, strand, phases), CDSInterval(starts, ends, strand, frames))")
+    ensures = {
+        "same-frames": lambda i, r: list(r[3]) == list(r[4]),
+        "equal-content-equal-identifier": lambda i, r: _same_digest(r[0], r[1]),
+        "identifier-survives-round-trip": lambda i, r: _same_digest(r[0], r[2]),
+    }
+
+    def inputs(self, S):
+        starts, ends = block_lists(S, "cds", 2)
+        strand = strand_of(S, "strand")
+        names = [S.const("p0"), S.const("p1")] if S.mode != "sym" else None
+        if S.mode == "sym":
+            # the four phase values are a finite domain: fork over them
+            ph = []
+            for k in range(2):
+                e = S.enum("gene.cds_frame.CDSPhase", f"p{k}")
+                S.assume(Not(enum_name_is(e, "NONE")))
+                ph.append(S.e.enum_concretize(e))
+        else:
+            ph = [S.enum("gene.cds_frame.CDSPhase", f"p{k}") for k in range(2)]
+        if S.mode == "native":
+            fr = [p.to_frame() for p in ph]
+        else:
+            fr = [S.e.call(S.e.getattr(p, "to_frame"), [], {}) for p in ph]
+        return NS(starts=starts, ends=ends, strand=strand, phases=ph, frames=fr, CDSInterval=S.cls(CDS))
+
+    def samples(self, rng):
+        d = sample_blocks(rng, "cds", 2)
+        d.update(strand=rng.choice(["PLUS", "MINUS"]), p0=rng.choice(["ZERO", "ONE", "TWO"]), p1=rng.choice(["ZERO", "ONE", "TWO"]))
+        return d
+
+    def observe(self, r):
+        return [list(r[3]), list(r[4])]
+
+
+def _same_digest(a, b):
+    """two identifiers computed by digest_object are the same value: natively equal UUIDs; in the engine the digest
+    is an uninterpreted function of its arguments, so 'same' means the arguments are equal term by term."""
+    if hasattr(a, "attrs") and "$digest_args" in a.attrs:
+        if not (hasattr(b, "attrs") and "$digest_args" in b.attrs):
+            return False
+        return _deep_eq(a.attrs["$digest_args"], b.attrs["$digest_args"])
+    return a == b
+
+
+def _deep_eq(x, y):
+    if isinstance(x, (list, tuple)) and isinstance(y, (list, tuple)):
+        if len(x) != len(y):
+            return False
+        return And(*[_deep_eq(a, b) for a, b in zip(x, y)])
+    if isinstance(x, dict) and isinstance(y, dict):
+        if sorted(x) != sorted(y):
+            return False
+        return And(*[_deep_eq(x[k], y[k]) for k in x])
+    if hasattr(x, "idx") and hasattr(y, "idx"):
+        return enum_eq(x, y)
+    if hasattr(x, "items") and hasattr(x, "ranges") and hasattr(y, "items"):
+        return sorted(map(str, x.items)) == sorted(map(str, y.items))
+    if hasattr(x, "length") and hasattr(x, "get") and hasattr(y, "get"):
+        return And(x.length == y.length, *[x.get(k) == y.get(k) for k in range(x.length)]) if isinstance(x.length, int) else False
+    try:
+        r = x == y
+    except Exception:
+        return False
+    return r
+
+
+class ParentToDict(Case):
+    """AbstractInterval._parent_to_dict for a collection with EXPLICIT bounds strictly inside its sequence chunk: the
+    exported parent is the WHOLE chunk (its text, its chromosome coordinates, its strand), so that importing it
+    rebuilds the same chunk-relative coordinates, identifier and member sequences."""
+    props = ("C08", "C09")
+    name = "AbstractInterval._parent_to_dict[collection with explicit bounds inside a chunk on either strand]"
+    func = "gene.interval.AbstractInterval._parent_to_dict"
+    module = "gene.collections"
+    call = "(lambda d: (d['seq'], d['start'], d['end'], d['strand'], d['sequence_name'], d['type'], d['alphabet']))(col._parent_to_dict())"
+    ensures = {
+        "text-is-the-whole-chunk": lambda i, r: And(_tlen(r[0]) == i.ce - i.cs, Implies(
+            And(0 <= i.k, i.k < i.ce - i.cs), _tchar(r[0], i.k) == _tchar(i.ref, i.k))),
+        "chunk-coordinates-and-strand": lambda i, r: And(r[1] == i.cs, r[2] == i.ce,
+                                                         r[3] == ("MINUS" if i.minus else "PLUS")),
+        "names": lambda i, r: And(r[4] == "chr1", r[5] == "SEQUENCE_CHUNK", r[6] == "NT_EXTENDED_GAPPED"),
+    }
+
+    def inputs(self, S):
+        from .c04_liftover import chunk_parent_stranded
+        from .c09_queries import AC, GENE
+        cp, cs, ce, minus = chunk_parent_stranded(S)
+        strand = strand_of(S, "strand")
+        s, e, lo, hi = S.int("s0"), S.int("e0"), S.int("col_start"), S.int("col_end")
+        S.assume(And(cs <= lo, lo <= s, s < e, e <= hi, hi <= ce))
+        tx = S.new(TRANSCRIPT, [s], [e], strand, transcript_id="tx0", parent_or_seq_chunk_parent=cp)
+        gene = S.new(GENE, [tx], gene_id="g0", parent_or_seq_chunk_parent=cp)
+        col = S.new(AC, genes=[gene], start=lo, end=hi, parent_or_seq_chunk_parent=cp)
+        return NS(col=col, cs=cs, ce=ce, minus=minus, k=S.int("k"), ref=S.symstr("chunk_seq"))
+
+    def samples(self, rng):
+        cs = rng.randint(0, 6)
+        L = rng.randint(4, 12)
+        lo = cs + rng.randint(0, 2)
+        hi = cs + L - rng.randint(0, 1)
+        s = rng.randint(lo, hi - 1)
+        return dict(chunk_start=cs, chunk_end=cs + L, chunk_seq="".join(rng.choice("ACGT") for _ in range(L)),
+                    chunk_strand=rng.choice(["PLUS", "MINUS"]), strand=rng.choice(["PLUS", "MINUS"]), s0=s,
+                    e0=rng.randint(s + 1, hi), col_start=lo, col_end=hi, k=rng.randint(0, 10))
+
+    def observe(self, r):
+        from pyvc.check import default_observe as o
+        return [r[0] if isinstance(r[0], str) else None, o(r[1]), o(r[2]), r[3], r[4], r[5], r[6]]
+
+
+def _tlen(t):
+    return t.length if hasattr(t, "arr") else len(t)
+
+
+def _tchar(t, k):
+    if hasattr(t, "arr"):
+        import z3
+        return z3.Select(t.arr, k)
+    return ord(t[k]) if 0 <= k < len(t) else -1
+
+
 class VariantRoundTrip(Case):
     props = ("C08",)
     name = "VariantInterval.from_dict(to_dict(x), parent)"
@@ -245,4 +376,4 @@ class NativeRoundTrips(Case):
 
 
 CASES = [TranscriptRoundTrip(1, False), TranscriptRoundTrip(2, False), TranscriptRoundTrip(1, True), VariantRoundTrip(),
-         NativeRoundTrips()]
+         NativeRoundTrips(), CdsGuidContent(), ParentToDict()]
